@@ -42,13 +42,14 @@ let char_of_ascii (Ascii (a, b, c, d, e, f, g, h)) =
   let bit x k = if x then 1 lsl k else 0 in
   Char.chr (bit a 0 + bit b 1 + bit c 2 + bit d 3 + bit e 4 + bit f 5 + bit g 6 + bit h 7)
 let str_of_string s : ascii list = List.init (String.length s) (fun i -> ascii_of_char s.[i])
-let string_of_str (l : ascii list) = String.init (List.length l) (fun i -> char_of_ascii (List.nth l i))
+let string_of_str (l : ascii list) = let b = Buffer.create 64 in List.iter (fun c -> Buffer.add_char b (char_of_ascii c)) l; Buffer.contents b
 let rec cstring_of_string s (i : int) : Avmodel.string =
   if i >= String.length s then EmptyString else String (ascii_of_char s.[i], cstring_of_string s (i + 1))
 let cstr s = cstring_of_string s 0
 let rec string_of_cstring = function EmptyString -> "" | String (c, r) -> String.make 1 (char_of_ascii c) ^ string_of_cstring r
 
-let hex_of_bytes (l : n list) = String.concat "" (List.map (fun b -> Printf.sprintf "%02x" (int_of_n b)) l)
+let hex_of_bytes (l : n list) =
+  let b = Buffer.create 64 in List.iter (fun x -> Buffer.add_string b (Printf.sprintf "%02x" (int_of_n x))) l; Buffer.contents b
 let split_on c s = String.split_on_char c s
 let read_lines () = let r = ref [] in (try while true do r := input_line stdin :: !r done with End_of_file -> ()); List.rev !r
 
@@ -166,7 +167,7 @@ let observe_build (r : build_result res) =
     Printf.sprintf "OK %s %s %s %s %s %s %s" (dash (hex_of_bytes b.b_code)) (dash (hex_of_bytes b.b_eeprom))
       (string_of_n b.b_flash) (string_of_n b.b_eeprom_size) (string_of_n b.b_ram) (string_of_n b.b_ram_filling)
       (dash (String.concat "," (List.map (fun m -> hex_of_string (string_of_str m)) b.b_messages)))
-let build_fuel = nat_of_int 3000
+let build_fuel = nat_of_int 400000
 let cmd_build () =
   List.iter (fun line ->
     let text = unhex_string (String.trim line) in
